@@ -541,6 +541,29 @@ def selBottom (n : NSpec) : Op := fun pop => do
   if pop.any (fun x => x.fit.isNone) then fail .key
   else pure ((pop.mergeSort (fun a b => decide (fitKey a ≤ fitKey b))).take (numOutput n pop.length))
 
+/-- the distinct values of a list (first occurrences). -/
+def dedupInt : List Int → List Int
+  | [] => []
+  | a :: t => a :: (dedupInt t).filter (fun b => b != a)
+
+/-- `sorted(set(keys), reverse=desc)[:n]`: the `n` best distinct keys. -/
+def bestKeys (desc : Bool) (n : Nat) (pop : Pop) : List Int :=
+  ((dedupInt (pop.map fitKey)).mergeSort
+    (fun a b => if desc then decide (a ≥ b) else decide (a ≤ b))).take n
+
+/-- `Top(n, cluster=True)` (selectors.py:199-204): all members of the `n` best key classes, best first,
+members of a class in input order. -/
+def selTopCluster (n : NSpec) : Op := fun pop =>
+  if pop.any (fun x => x.fit.isNone) then fail .key
+  else pure ((pop.filter (fun x => (bestKeys true (numOutput n pop.length) pop).contains (fitKey x))).mergeSort
+    (fun a b => decide (fitKey a ≥ fitKey b)))
+
+/-- `Bottom(n, cluster=True)` (selectors.py:236-240). -/
+def selBottomCluster (n : NSpec) : Op := fun pop =>
+  if pop.any (fun x => x.fit.isNone) then fail .key
+  else pure ((pop.filter (fun x => (bestKeys false (numOutput n pop.length) pop).contains (fitKey x))).mergeSort
+    (fun a b => decide (fitKey a ≤ fitKey b)))
+
 def selFirst (n : NSpec) : Op := fun pop => pure (pop.take (numOutput n pop.length))
 
 def selLast (n : NSpec) : Op := fun pop => pure (pop.drop (pop.length - numOutput n pop.length))
